@@ -25,7 +25,7 @@ def flags_str(r: dict) -> str:
 
 # ----------------------------------------------------------------------------- worker side
 def _dataset(rng: random.Random, n_traces: int, tb: int) -> tuple[list[dict], dict]:
-    st = store.gen_store(rng, n_traces, NAMES, TYPES, max_spans=5, hostile=True, span_minutes=30)
+    st = store.gen_store(rng, min(n_traces, 14), NAMES, TYPES, max_spans=5, hostile=True, span_minutes=30)
     traces = st["traces"]
     base, total = st["base"], st["total"]
     # pin the window: one tiny trace at the very start and one at the very end, and make
@@ -60,6 +60,18 @@ def _dataset(rng: random.Random, n_traces: int, tb: int) -> tuple[list[dict], di
                    start_timestamp=s["start_timestamp"] - t_first + t0,
                    end_timestamp=s["end_timestamp"] - t_first + t0) for s in src["spans"]]
         traces.append({"job_id": jid, "name": src["name"], "kind": "complete", "spans": cp})
+    if n_traces >= 100:
+        # large data set: more spans than the default batch size of 1000
+        for i in range(n_traces):
+            tree = store.rand_tree(rng, rng.randint(4, 7), TYPES)
+            jid = f"tr-big{i}"
+            traces.append({"job_id": jid, "name": rng.choice(NAMES), "kind": "complete",
+                           "spans": store.materialise(tree, jid, NAMES[i % 3],
+                                                      base + int(rng.uniform(0.1, 0.9) * total),
+                                                      rng, 10**6)})
+        for t in traces[-n_traces:]:
+            for sp in t["spans"]:
+                sp["job_name"] = t["name"]
     stream = store.flatten(st, rng, "shuffled")
     return stream, st
 
@@ -105,10 +117,13 @@ def run_history(case: dict) -> dict:
     rng = random.Random(case["rng_seed"])
     tb, bs = case["time_buffer"], case["batch_size"]
     stream, st = _dataset(rng, case["n_traces"], tb)
+    out_spans = len(stream)
     wd = tempfile.mkdtemp(prefix="c15-", dir=case["work_dir"])
-    out: dict[str, Any] = {"status": "ok", "violations": [], "runs": [], "cli_runs": 0}
+    out: dict[str, Any] = {"status": "ok", "violations": [], "runs": [], "cli_runs": 0,
+                           "spans": out_spans}
     try:
-        docs = otelgen.spans_to_documents(stream, rng, nfiles=rng.randint(1, 3), dup_rate=0.05)
+        docs = otelgen.spans_to_documents(stream, rng, nfiles=rng.randint(1, 3),
+                                          dup_rate=case.get("dup_rate", 0.05))
         otelgen.write_dataset(os.path.join(wd, "in"), docs)
         shape_of_job = {t["job_id"]: store.shape_of(t["spans"]) for t in st["traces"]}
 
@@ -225,7 +240,8 @@ def main(tier: str, seed: int) -> int:
              "over flags {ingest,-ni} x {-ug} x {-se}, first run always ingesting; each history "
              "on its own seeded dataset (complete, dangling-parent, mixed-name, out-of-window "
              "traces, repeated shapes, duplicated spans across files), time_buffer in {0,1,2}, "
-             "batch_size in {1,2,3,1000}; the first-run answer for each flag set is taken from "
+             "batch_size in {1,2,3,1000}, plus two histories on data sets of > 1000 spans with the "
+             "default batch size; the first-run answer for each flag set is taken from "
              "fresh database files. distinct = distinct (history flags, dataset seed)")
     chk.assumptions = [
         "PV sequences compared through the saved pv_event_sequence files (-se); runs without "
@@ -240,6 +256,17 @@ def main(tier: str, seed: int) -> int:
         cases.append({"runs": h, "rng_seed": f"{seed}-{i}", "time_buffer": rng.choice([0, 1, 2]),
                       "batch_size": rng.choice([1, 2, 3, 1000]), "n_traces": rng.randint(6, 14),
                       "work_dir": wd, "_wall_limit": 1500})
+    # two histories on a data set larger than the default batch size (1000 spans per flush)
+    for j, h in enumerate([[{"ingest": True, "ug": False, "se": True},
+                            {"ingest": True, "ug": True, "se": True}],
+                           [{"ingest": True, "ug": True, "se": False},
+                            {"ingest": True, "ug": False, "se": True},
+                            {"ingest": False, "ug": False, "se": True}]]):
+        cases.append({"runs": h, "rng_seed": f"{seed}-big-{j}", "time_buffer": j,
+                      "batch_size": (1000, 2000)[j], "dup_rate": (0.0, 0.05)[j],
+                      "n_traces": 220 + 30 * j, "work_dir": wd,
+                      "_wall_limit": 1500})
+    stats["large_data_set_histories"] = 2
     chk.extra["workload"] = stats
     results, notes = core.run_workers("checks.c15", "run_history", cases, hashseeds=[0],
                                       chunks_per_proc=4, timeout=6000)
@@ -262,6 +289,8 @@ def main(tier: str, seed: int) -> int:
         obs["histories"] += 1
         obs["cli_process_runs"] += r["cli_runs"]
         obs["survivor_jobs"] += r.get("survivor_jobs", 0)
+        obs["max_spans_in_a_data_set"] = max(obs.get("max_spans_in_a_data_set", 0),
+                                             r.get("spans", 0))
         chk.case(core.digest([[flags_str(x) for x in c["runs"]], c["rng_seed"]]),
                  len(c["runs"]) > 1)
         for i, rec in enumerate(r["runs"]):
